@@ -45,6 +45,7 @@ class Engine:
         self.path_obl = []          # obligations collected on the current path: (label, cond, info)
         self.deadline = None
         self.cut_depth = None
+        self.path_cap = None
         self.frontier = []
         self.funcs = {}
 
@@ -319,6 +320,8 @@ class Engine:
             last = self.decisions[-1]
             self.decisions[-1] = [not last[0], False] + last[2:]
             if self.stats['paths'] + self.stats['pruned'] >= self.max_paths: raise Inconclusive('max paths')
+            if self.path_cap is not None and self.stats['paths'] >= self.path_cap:
+                self.stats['path_cap_reached'] = 1; break
 
 
 def _zfrac(a):
